@@ -298,6 +298,27 @@ def static_scratch_check(js):
     return None
 
 
+def _is_branch_json(j):
+    c = HC.class_by_name(j["c"])
+    return issubclass(c, (core.JmpInstruction, core.BranchUnaryInstruction, core.BranchBinaryInstruction))
+
+
+def static_end_check(js, ser):
+    """Model-free static oracle: a branch of the source to the label just past the end must, in the
+    transpiled program, land on an instruction that NO instruction follows (branches keep their order,
+    so the k-th branch of the output is the k-th branch of the source)."""
+    src = [j for j in js if _is_branch_json(j)]
+    out = [j for j in ser if _is_branch_json(j)]
+    if len(src) != len(out):
+        return {"what": "the transpiled program has a different number of branches", "stage": "static-end"}
+    for k, (a, b) in enumerate(zip(src, out)):
+        if a["o"][-1].get("i") == len(js) and b["o"][-1].get("i") != len(ser) - 1:
+            return {"what": "a branch to the end label lands on an instruction that is followed by more "
+                            "instructions of the program", "stage": "static-end", "branch": k,
+                    "target": b["o"][-1].get("i"), "length": len(ser), "tail": show(ser[-4:])}
+    return None
+
+
 def oracle_compare(subs_js, nq, script, state, debug=False, given=None):
     """Original (vanilla semantics) vs transpiled-and-serialised (NV semantics).
     Returns None when they agree, else a description. Programs on which the ORIGINAL faults are
@@ -337,6 +358,10 @@ def oracle_compare(subs_js, nq, script, state, debug=False, given=None):
     if not states_equal(a["state"], b["state"]):
         return {"what": "final quantum state differs (beyond a global phase)", "stage": "state",
                 "overlap": float(abs(np.vdot(a["state"], b["state"])))}
+    for js, ser in zip(subs_js, tsubs):
+        sc = static_end_check(js, ser)
+        if sc is not None:
+            return sc
     if given is None:
         for js in subs_js:
             sc = static_scratch_check(js)
@@ -488,6 +513,8 @@ class ProgGen:
         self.features = set()
         self.load_sites = []
         self.in_realloc = False
+        self.ret_block = False
+        self.end_label = None
 
     # -- emission
     def emit(self, c, *ops):
@@ -849,7 +876,31 @@ class ProgGen:
                     self.fail_pos = len([i for i in self.items if not isinstance(i, tuple)])
                     self.emit("vanilla.MovInstruction", reg(Q, 14), reg(Q, 15))
             if k < size:
+                if self.ret_block and self.end_label is None and self.rng.random() < 0.5:
+                    # a conditional jump to the label BEHIND the trailing return block
+                    self.end_label = self.new_label()
+                    if self.rng.random() < 0.5:
+                        self.emit(self.rng.choice(BR1), reg(self.rng.choice([R, M]), self.rng.randrange(3)),
+                                  {"lab": self.end_label})
+                    else:
+                        self.emit(self.rng.choice(BR2), reg(R, self.rng.randrange(6)),
+                                  reg(self.rng.choice([R, M]), self.rng.randrange(3)), {"lab": self.end_label})
                 self.stmt(2)
+        if self.ret_block:
+            # what every SDK subroutine ends in: ret_reg / ret_arr; sometimes entered through a label
+            if self.rng.random() < 0.3:
+                into = self.new_label()
+                self.emit(self.rng.choice(BR2), reg(R, self.rng.randrange(6)), reg(R, self.rng.randrange(3)),
+                          {"lab": into})
+                self.stmt(0)
+                self.place(into)
+            for _ in range(self.rng.choice([1, 2, 3])):
+                self.emit("core.RetRegInstruction", reg(self.rng.choice([R, R, M]), self.rng.randrange(3)))
+            if self.loads and self.rng.random() < 0.7:
+                self.emit("core.RetArrInstruction", {"a": 0})
+            if self.end_label is not None:
+                self.place(self.end_label)
+            self.features.add("return-block")
         js = self.resolve()
         n = len(js)
         for j in js:
